@@ -5,6 +5,7 @@
 mod bits;
 mod budget;
 mod findings;
+mod prog;
 mod util;
 
 use std::io::{BufRead, Write};
@@ -35,6 +36,7 @@ fn main() {
             "bits" => bits::run(&toks[1..]),
             "budget" => budget::run(&toks[1..]),
             "findings" => findings::run(&toks[1..]),
+            "prog" => prog::run(&toks[1..]),
             other => {
                 eprintln!("unknown command {}", other);
                 std::process::exit(2);
